@@ -156,6 +156,14 @@ func (h *History) normalize() {
 	}
 }
 
+// monikerOf: a moniker of exactly n bytes; lengths around the limit are spelled with multi-byte characters
+func monikerOf(n int) string {
+	if n >= 60 {
+		return wideString(n)
+	}
+	return strings.Repeat("m", n)
+}
+
 func (c *Chain) buildMsg(m MsgSpec) (sdk.Msg, error) {
 	k := c.Keys
 	sender := k.accAddr(m.Sender).String()
@@ -174,7 +182,7 @@ func (c *Chain) buildMsg(m MsgSpec) (sdk.Msg, error) {
 		return &poa.MsgRemovePending{Sender: sender, ValidatorAddress: valStr(m.Val)}, nil
 	case "create":
 		msg := &poa.MsgCreateValidator{
-			Description:       poa.Description{Moniker: strings.Repeat("m", m.Moniker)},
+			Description:       poa.Description{Moniker: monikerOf(m.Moniker)},
 			Commission:        poa.CommissionRates{Rate: optDec(m.Rate), MaxRate: optDec(m.MaxRate), MaxChangeRate: optDec(m.MaxChg)},
 			MinSelfDelegation: sdkmath.NewInt(m.MSD),
 			ValidatorAddress:  valStr(m.Val),
